@@ -129,7 +129,9 @@ def generate(seed, tier):
         ops = [{'name': 'wrap'}]
         for _ in range(rng.randint(2, max_len)):
             if mode == 'r' and rng.random() < 0.08:
-                ops.append({'name': rng.choice(WRITE_OPS)})
+                wn = rng.choice(WRITE_OPS)
+                ops.append({'name': wn, 'target': rng.choice(['group', 'file', 'dataset', 'main', 'usid'])}
+                           if wn == 'write_book_keeping_attrs' else {'name': wn})
             else:
                 ops.append(_gen_op(rng, ds))
         cases.append({'kind': 'seq', 'ds': ds, 'nres': rng.choice([0, 1, 2]), 'mode': mode, 'flag0': rng.random() < 0.5,
@@ -140,8 +142,15 @@ def generate(seed, tier):
             for mode in ('r', 'r+'):
                 rng = derived_rng(seed, 'C20w', j)
                 j += 1
+                wop = {'name': w}
+                if w == 'write_book_keeping_attrs':
+                    wop['target'] = ['group', 'file', 'dataset', 'main', 'usid'][(j // 2) % 5]
                 cases.append({'kind': 'seq', 'ds': _gen_ds(rng), 'nres': rng.choice([0, 1]), 'mode': mode, 'flag0': False,
-                              'ops': [{'name': 'wrap'}, {'name': w}]})
+                              'ops': [{'name': 'wrap'}, wop]})
+                if w == 'write_book_keeping_attrs' and rep == 0:
+                    for tg in ('file', 'dataset', 'main', 'usid'):
+                        cases.append({'kind': 'seq', 'ds': _gen_ds(rng), 'nres': 0, 'mode': mode, 'flag0': False,
+                                      'ops': [{'name': 'wrap'}, {'name': w, 'target': tg}]})
     # a TARGET distinct from the source: results written to / looked up in a group of another file, in every
     # combination of open modes of the two files
     for rep in range({'quick': 1, 'thorough': 4, 'search': 2}[tier]):
@@ -411,7 +420,9 @@ def _do(op, cx, inp):
         hu.copy_main_attributes(main, g['plain'])
         return None
     if name == 'write_book_keeping_attrs':
-        hu.write_book_keeping_attrs(g)
+        # every kind of object the function accepts: a group, the file, a plain dataset, the Main dataset, its wrapper
+        tgt = {'group': g, 'file': f, 'dataset': g['plain'], 'main': main, 'usid': u}[op.get('target', 'group')]
+        hu.write_book_keeping_attrs(tgt)
         return None
     if name == 'write_sidpy_dataset':
         import sidpy
